@@ -83,6 +83,65 @@ Proof.
     apply z_in_In in E2. congruence.
 Qed.
 
+(** formats (upper / lower case) never change how a text converts to int *)
+Lemma fmt_char_facts f c :
+  let g := match f with FUpper => to_upper | FLower => to_lower end in
+  is_digit (g c) = is_digit c /\ (is_digit c = true -> g c = c) /\
+  ceq (g c) 45 = ceq c 45 /\ ceq (g c) 43 = ceq c 43.
+Proof.
+  destruct f; simpl; unfold to_upper, to_lower, is_digit, ceq.
+  - destruct (N.leb 97 c && N.leb c 122) eqn:E.
+    + apply andb_true_iff in E. destruct E as [E1 E2]. apply N.leb_le in E1. apply N.leb_le in E2.
+      repeat split.
+      * destruct (N.leb_spec 48 (c - 32)), (N.leb_spec (c - 32) 57), (N.leb_spec 48 c), (N.leb_spec c 57);
+          simpl; auto; lia.
+      * intros H. apply andb_true_iff in H. destruct H as [_ H]. apply N.leb_le in H. lia.
+      * destruct (N.eqb_spec (c - 32) 45), (N.eqb_spec c 45); auto; lia.
+      * destruct (N.eqb_spec (c - 32) 43), (N.eqb_spec c 43); auto; lia.
+    + repeat split; auto.
+  - destruct (N.leb 65 c && N.leb c 90) eqn:E.
+    + apply andb_true_iff in E. destruct E as [E1 E2]. apply N.leb_le in E1. apply N.leb_le in E2.
+      repeat split.
+      * destruct (N.leb_spec 48 (c + 32)), (N.leb_spec (c + 32) 57), (N.leb_spec 48 c), (N.leb_spec c 57);
+          simpl; auto; lia.
+      * intros H. apply andb_true_iff in H. destruct H as [_ H]. apply N.leb_le in H. lia.
+      * destruct (N.eqb_spec (c + 32) 45), (N.eqb_spec c 45); auto; lia.
+      * destruct (N.eqb_spec (c + 32) 43), (N.eqb_spec c 43); auto; lia.
+    + repeat split; auto.
+Qed.
+
+Lemma digits_val_fmt f s : forall acc, digits_val acc (apply_fmt f s) = digits_val acc s.
+Proof.
+  induction s as [|c r IH]; intros acc; destruct f; simpl; auto.
+  - destruct (fmt_char_facts FUpper c) as [H1 [H2 _]]. simpl in H1, H2. rewrite H1.
+    destruct (is_digit c) eqn:E; auto. rewrite (H2 eq_refl). apply (IH _).
+  - destruct (fmt_char_facts FLower c) as [H1 [H2 _]]. simpl in H1, H2. rewrite H1.
+    destruct (is_digit c) eqn:E; auto. rewrite (H2 eq_refl). apply (IH _).
+Qed.
+
+Lemma parse_int_fmt f s : parse_int (apply_fmt f s) = parse_int s.
+Proof.
+  destruct s as [|c r]; [destruct f; reflexivity|].
+  pose proof (digits_val_fmt f (c :: r) 0) as Hall. pose proof (digits_val_fmt f r 0) as Hr.
+  destruct (fmt_char_facts f c) as [_ [_ [H45 H43]]].
+  destruct f; simpl in *; rewrite H45, H43;
+    (destruct (ceq c 45); [|destruct (ceq c 43)]);
+    try (destruct r; simpl in *; [reflexivity|rewrite Hr; reflexivity]);
+    rewrite Hall; reflexivity.
+Qed.
+
+Lemma lex_int_fmts fs : forall s, lex_int (apply_fmts fs s) = lex_int s.
+Proof.
+  unfold apply_fmts. induction fs as [|f r IH]; intros s; simpl; auto.
+  rewrite IH. unfold lex_int. rewrite parse_int_fmt. reflexivity.
+Qed.
+
+Lemma lex_int_fmt_pos o idx s : lex_int (fmt_pos o idx s) = lex_int s.
+Proof. unfold fmt_pos. destruct (Nat.ltb _ _); auto. apply lex_int_fmts. Qed.
+
+Lemma lex_int_pos_ints k o l s : lex_int (pos_fmt_ints k o l s) = lex_int s.
+Proof. destruct k; simpl; auto. apply lex_int_fmt_pos. Qed.
+
 (* ------------------------------------------------------------------ *)
 (** * Sorting *)
 
@@ -456,7 +515,7 @@ Proof.
   intros P Sk. unfold step_arr.
   destruct (Nat.eqb idx n); simpl; auto.
   destruct (run_checks (o_checks o) t); simpl; auto.
-  destruct (lex_int (apply_fmts (o_fmts o) t)) as [v| |]; simpl; auto.
+  destruct (lex_int (fmt_pos o idx (apply_fmts (o_fmts o) t))) as [v| |]; simpl; auto.
   unfold arr_contains. rewrite (z_in_perm v _ _ P).
   destruct (o_uniq o && z_in v (firstn idx l0)); cbn -[firstn skipn].
   - destruct (o_dup_err o); simpl; auto.
@@ -474,6 +533,7 @@ Proof.
   - (* CInts *)
     assert (H : res_rel cperm (do l1 <- step_ints k o t l; Ok (CInts l1)) (do l1 <- step_ints k o t l0; Ok (CInts l1))).
     { unfold step_ints. destruct (run_checks (o_checks o) t); simpl; auto.
+      rewrite !lex_int_pos_ints.
       destruct (lex_int (apply_fmts (o_fmts o) t)); simpl; auto.
       rewrite (z_in_perm a0 l l0 E).
       destruct (o_uniq o && z_in a0 l0); simpl; [destruct (o_dup_err o); simpl; auto|].
@@ -489,8 +549,9 @@ Proof.
       try (unfold step, step_gen; simpl; auto; fail).
     unfold step, step_gen, step_strs.
     destruct (run_checks (o_checks o) t); simpl; auto.
-    rewrite (str_in_perm _ l l0 E).
-    destruct (o_uniq o && str_in (apply_fmts (o_fmts o) t) l0); simpl; [destruct (o_dup_err o); simpl; auto|].
+    rewrite (Permutation_length E). rewrite (str_in_perm _ l l0 E).
+    destruct (o_uniq o && str_in (fmt_pos o (length l0) (apply_fmts (o_fmts o) t)) l0); simpl;
+      [destruct (o_dup_err o); simpl; auto|].
     apply Permutation_app_tail; auto.
 Qed.
 
@@ -627,7 +688,7 @@ Qed.
 
 Definition no_clear (o : copts) : copts :=
   {| o_sep := o_sep o; o_clear := false; o_sort := o_sort o; o_uniq := o_uniq o; o_dup_err := o_dup_err o;
-     o_multi := o_multi o; o_checks := o_checks o; o_fmts := o_fmts o; o_card := o_card o |}.
+     o_multi := o_multi o; o_checks := o_checks o; o_ftab := o_ftab o; o_card := o_card o |}.
 
 Lemma assign_tokens_ext stp o o' toks : o_card o = o_card o' ->
   forall first n c, assign_tokens stp o toks first n c = assign_tokens stp o' toks first n c.
@@ -993,7 +1054,8 @@ Lemma step_ints_spec k o t l l' :
     ((o_uniq o = true /\ In v l /\ o_dup_err o = false /\ l' = l) \/
      ((o_uniq o = false \/ ~ In v l) /\ l' = place k v l)).
 Proof.
-  unfold step_ints, conv_int. intros H. inv_bind H. inv_bind H. exists a0. simpl. split; auto.
+  unfold step_ints, conv_int. intros H. inv_bind H. rewrite lex_int_pos_ints in H. inv_bind H.
+  exists a0. simpl. split; auto.
   destruct (o_uniq o) eqn:Eu; simpl in H.
   - destruct (z_in a0 l) eqn:Ez.
     + destruct (o_dup_err o) eqn:Ed; [discriminate H|]. inversion H; subst.
@@ -1191,10 +1253,10 @@ Qed.
 
 Definition o_plain (k : kind) : copts :=
   {| o_sep := default_sep k; o_clear := false; o_sort := false; o_uniq := false; o_dup_err := false;
-     o_multi := false; o_checks := []; o_fmts := []; o_card := default_card k |}.
+     o_multi := false; o_checks := []; o_ftab := []; o_card := default_card k |}.
 Definition o_uniq_only (k : kind) : copts :=
   {| o_sep := default_sep k; o_clear := false; o_sort := false; o_uniq := true; o_dup_err := false;
-     o_multi := false; o_checks := []; o_fmts := []; o_card := default_card k |}.
+     o_multi := false; o_checks := []; o_ftab := []; o_card := default_card k |}.
 
 (** "-l 0,5" *)
 Definition w_arr : list str := [[45; 108]; [48; 44; 53]]%N.
@@ -1239,6 +1301,7 @@ Proof.
     assert (Hs' : step_arr arr_contains n o t l i = Ok c') by (destruct Hk; subst k; exact Hs).
     clear Hs. unfold step_arr in Hs'. destruct (Nat.eqb i n); [discriminate Hs'|].
     inv_bind Hs'. inv_bind Hs'. rewrite Hu, Hd in Hs'. simpl in Hs'.
+    rewrite lex_int_fmt_pos in E0.
     assert (Hc : conv_int o t = Ok a0) by (unfold conv_int; rewrite E; destruct a; exact E0).
     unfold arr_contains in Hs'. destruct (z_in a0 (firstn i l)) eqn:Ez; inversion Hs'; subst; clear Hs'.
     + apply z_in_In in Ez. exists l, i. split; [auto|split; [auto|]]. intros z. rewrite Hi. split.
